@@ -150,6 +150,13 @@ func zzProcAlive() bool {
 			}
 		}
 	}
+	for _, e := range mine {
+		// an unlink of the log that happened before the cut, with the rename after it
+		if e.Kind == "remove" && !isTmp(e) && e.I < die && !renamed {
+			os.Remove(zzLogPath())
+			return false
+		}
+	}
 	if renamed {
 		return false // the commit point was passed: the completed state stands
 	}
